@@ -59,7 +59,8 @@ type edge struct {
 
 const (
 	ctDefault = "text/html; charset=utf-8"
-	ctCustom  = "application/vnd.verif+xml"
+	ctJSON    = "application/json"
+	ctSSE     = "text/event-stream; charset=utf-8"
 	errMsg    = "templ: failed to render template\n"
 	ehBody    = "custom error body"
 )
@@ -77,8 +78,14 @@ func concreteCT(v string) string {
 	switch v {
 	case "default":
 		return ctDefault
-	case "custom":
-		return ctCustom
+	case "htmlcharset":
+		return ctDefault
+	case "json":
+		return ctJSON
+	case "eventstream":
+		return ctSSE
+	case "empty":
+		return ""
 	case "text/plain":
 		return "text/plain; charset=utf-8"
 	case "absent":
@@ -242,8 +249,9 @@ func handler(c config, generated bool) http.Handler {
 	if c.Status != 0 {
 		opts = append(opts, templ.WithStatus(c.Status))
 	}
-	if c.CType == "custom" {
-		opts = append(opts, templ.WithContentType(ctCustom))
+	if c.CType != "default" {
+		// htmlcharset: the default value given explicitly; json; text/event-stream (without WithStreaming: still buffered); ""
+		opts = append(opts, templ.WithContentType(concreteCT(c.CType)))
 	}
 	var saw error
 	if c.EH != "unset" {
@@ -554,6 +562,13 @@ func main() {
 				}
 				if round == 0 && e.Cfg.Fail && e.Cfg.ECls != "plain" && prof != 0 && prof != 3 {
 					continue // the special error classes: smallest and largest chunk profile only
+				}
+				lightCT := e.Cfg.CType == "htmlcharset" || e.Cfg.CType == "json" || e.Cfg.CType == "empty"
+				if round == 0 && lightCT && prof != 1 {
+					continue // content types that only differ in the header value: one chunk profile
+				}
+				if round > 0 && lightCT {
+					continue
 				}
 				check(id, e, prof, false, "recorder")
 				check(id, e, prof, false, "server")
